@@ -3,11 +3,50 @@ import drivers.c12  # noqa: F401   (registers the drivers)
 
 PROP = "C12"
 LEVEL = "exploration"
-LEVEL_TEXT = "tbd"
-LEVEL_NOTE = "tbd"
+LEVEL_TEXT = ("Bounded run-time contracts only: every compressed contraction scheme (2D / 3D boundary contraction from every "
+              "side, in 13 / 7 sequences and every registered mode, row / column / plaquette environments, HOTRG, CTMRG, "
+              "coarse graining, compressed contraction of arbitrary graphs along several trees, compress_all* and the "
+              "arbitrary-geometry compressors) is run on small random networks (a) with max_bond above every exact bond and "
+              "cutoff=0, where the returned value / denoted tensor must equal the exact contraction computed by numpy, and (b) "
+              "with a small cap, where every bond of the network handed back (final_contract=False, lazy, in-place inspection, "
+              "callback hooks) must be within the cap; stored environments must reproduce the value of the whole when joined "
+              "with the part they exclude. Nothing is proved for unbounded sizes.")
+LEVEL_NOTE = ("Trusted: the driver's own pairwise numpy einsum contraction of the raw tensor data (x 10**exponent) as the value "
+              "of a network; tolerances 1e-8 (double) / 2e-3 (single) relative, x10 for environments and coarse graining, x100 "
+              "for variational / randomized / gauge-based modes; domain bounds as stated per driver.")
 TECHNIQUE = "run-time contracts on the real functions vs independent numpy references over a stated bounded domain (bounded stand-in)"
 E1 = []
 PROVIDERS = []
-TRUSTED = ["numpy einsum reference computations"]
-ASSUMPTIONS = []
-EXPLANATION = "tbd"
+TRUSTED = [
+    "numpy einsum on dense arrays (reference value of a network: sum over all labels of the product of the raw tensor data)",
+    "cotengra path optimisers return valid contraction paths (process pools disabled inside the harness workers)",
+]
+ASSUMPTIONS = [
+    "2D: random flat lattices 1x1..5x3 (bond 2..3; open, and 3x3 / 4x3 / 3x4 with periodic directions), PEPS norm networks "
+    "(two layers, up to 4x3) and bra/operator/ket sandwiches (three layers, up to 3x3); 3D: random lattices 1x1x1..3x3x3 "
+    "and 2x2x4 with bond 2 (3 on 2x2x2); arbitrary geometry: random trees, 3-regular and sparse graphs with 1..8 tensors, "
+    "bonds 2..3; dtypes float32/64, complex64/128; stored exponent absent / set / produced by equalize_norms_",
+    "'untruncated' means max_bond=4096 (or, for the modes that allocate sketches / guesses of size max_bond, a bound "
+    "computed from the geometry: bond-per-edge ** (longest side - 1), squared x bond for periodic lattices) and cutoff=0",
+    "'obeys the cap' is checked with caps in [D, D^2-1] (so that untouched original bonds never exceed it) on the network "
+    "handed over by final_contract=False / lazy=True / max_separation=2 / around=..., on stored environments, and through "
+    "callback_post_compress / callback for contract_compressed and contract_around (per-step invariant only for "
+    "compress_late=False)",
+    "option combinations that quimb rejects with an explicit NotImplementedError (mode='full-bond' with equalize_norms) "
+    "are outside the domain; CTMRG is run with its documented mode 'projector'; a truncating 'local-fit' compression only on "
+    "graphs with <= 5 tensors and bond 2 (it solves dense normal equations over the neighbourhood)",
+    "contract_simple_sweep / compress_all_simple get cutoff=0 explicitly (their default cutoff 1e-10 truncates the collapsing "
+    "simple-update gauges of closed networks and is outside the premise of the property)",
+    "tolerances: 1e-8 (double) / 2e-3 (single) relative to the exact value, x10 environments / HOTRG / CTMRG / 3D, x100 for "
+    "fit*, src*, su, l2bp modes, local-fit and gauge-supplied compressed contraction",
+]
+EXPLANATION = (
+    "E3 (bounded): five drivers. (1) boundary-contraction-2d: contract_boundary over mode x canonize x sequence x layer_tags x "
+    "strip_exponent / equalize_norms x in-place, single steps contract_boundary_from_{xmin,xmax,ymin,ymax}, contract_mps_sweep, "
+    "contract_full_bootstrap. (2) environments-2d: compute_environments (4 sides), compute_x/y_environments, "
+    "compute_plaquette_environments: environment x excluded part == whole, environment bonds within the cap. (3) "
+    "coarse-graining-2d: contract_hotrg, contract_ctmrg, coarse_grain_hotrg. (4) boundary-and-coarse-graining-3d: 3D "
+    "contract_boundary (8 modes), contract_boundary_from, contract_peps_sweep, contract_simple_sweep, contract_ctmrg, "
+    "contract_hotrg, coarse_grain_hotrg. (5) arbitrary-geometry-compressed-contraction: contract_compressed (optimizer and "
+    "explicit trees, 5 compress modes, option grid, callbacks), contract_around*, compress_all / _tree / _1d / _simple, "
+    "tensor_network_ag_compress (6 methods). 1D compress helpers are covered under C09.")
